@@ -302,6 +302,9 @@ class Program:
         return "G%s" % self.pid
 
     def source(self, K, extra_adv=0, nlo=-1, nhi=3):
+        if getattr(self, "standalone", None):
+            text = self.standalone.replace("@", self.pid) + "\n" + std_driver(self.name, K, extra_adv, nlo, nhi, self.ret_type)
+            return text
         lines = []
         if self.named_result:
             lines.append("func %s%s (_ Iter[%s]) {" % (self.name, SIG, self.ret_type))
@@ -1373,3 +1376,103 @@ def c13_programs():
         p.body = [("yield", "a"), ("yield", "dbl%s(b)" % pid)]
         progs.append(p)
     return progs
+
+
+# ---------------------------------------------------------------------------------------------
+# C12: unsupported constructs injected into supported programs
+
+def c12_injections():
+    """(name, stmts, tags) - each a list of statements to splice at one position"""
+    Y = lambda e: ("yield", e)
+    I = []
+    I.append(("goto", [("if", "g3", [("raw", "goto Lend")], None), Y("a + 901"), ("raw", "Lend:\n\trt.Emit(rt.EFF, 900)")]))
+    I.append(("goto_back", [("decl", "gc", "0"), ("raw", "Ltop:\n\tgc++"), Y("gc + 902"), ("if", "gc < 2 && g3", [("raw", "goto Ltop")], None)]))
+    I.append(("labelled_break", [("raw", "Lb:\n\tfor li := 0; li < 3; li++ {\n\t\tfor lj := 0; lj < 2; lj++ {\n\t\t\tif g3 && lj == 1 {\n\t\t\t\tbreak Lb\n\t\t\t}\n\t\t\tYield(li*10 + lj + 903)\n\t\t}\n\t}")]))
+    I.append(("labelled_continue", [("raw", "Lc:\n\tfor li := 0; li < 3; li++ {\n\t\tfor lj := 0; lj < 2; lj++ {\n\t\t\tif g3 && lj == 1 {\n\t\t\t\tcontinue Lc\n\t\t\t}\n\t\t\tYield(li*10 + lj + 904)\n\t\t}\n\t}")]))
+    I.append(("labelled_continue_same_loop", [("raw", "Lx:\n\tfor li := 0; li < 2; li++ {\n\t\tif g3 && li == 0 {\n\t\t\tcontinue Lx\n\t\t}\n\t\tYield(li + 905)\n\t}")]))
+    I.append(("select", [("raw", "sc := make(chan int, 1)\nsc <- a\nselect {\ncase sv := <-sc:\n\tYield(sv + 906)\ndefault:\n\tYield(b + 907)\n}")]))
+    I.append(("defer", [("raw", "defer rt.Emit(rt.EFF, 908)"), Y("a + 909")]))
+    I.append(("defer_yield", [("raw", "defer Yield(a + 910)"), Y("b + 911")]))
+    I.append(("fallthrough", [("raw", "switch a & 1 {\ncase 0:\n\tYield(a + 912)\n\tfallthrough\ncase 1:\n\tYield(b + 913)\n}")]))
+    I.append(("fallthrough_trivial_case", [("raw", "switch a & 1 {\ncase 0:\n\trt.Emit(rt.EFF, 914)\n\tfallthrough\ncase 1:\n\tYield(b + 915)\n}")]))
+    I.append(("range_ptr_array", [("raw", "pa := [3]int{a, b, a + b}\nfor pi, pv := range &pa {\n\tYield(pv + pi + 916)\n}")]))
+    I.append(("range_ptr_array_noyield", [("raw", "pa := [3]int{a, b, a + b}\npt := 0\nfor pi, pv := range &pa {\n\tpt += pv + pi\n}"), Y("pt + 917")]))
+    I.append(("yield_in_if_init", [("raw", "if Yield(a + 918); g3 {\n\tYield(b + 919)\n}")]))
+    I.append(("yield_in_if_init_trivial_body", [("raw", "if Yield(a + 920); g3 {\n\trt.Emit(rt.EFF, 921)\n}")]))
+    I.append(("yield_in_switch_init", [("raw", "switch Yield(a + 922); {\ncase g3:\n\tYield(b + 923)\n}")]))
+    I.append(("go_yield", [("raw", "go Yield(a + 924)"), Y("b + 925")]))
+    I.append(("yield_in_case_expr_call", [("raw", "switch {\ncase func() bool { rt.Emit(rt.EFF, 926); return g3 }():\n\tYield(a + 927)\n}")]))
+    I.append(("yield_in_closure_called", [("raw", "cf := func() int { return a + 928 }"), Y("cf()")]))
+    # negative controls: the construct inside a nested non-generator closure
+    I.append(("ctl_defer_in_closure", [("raw", "func() {\n\tdefer rt.Emit(rt.EFF, 930)\n\trt.Emit(rt.EFF, 931)\n}()"), Y("a + 932")]))
+    I.append(("ctl_goto_in_closure", [("raw", "func() {\n\tci := 0\nLq:\n\tci++\n\tif ci < 2 {\n\t\tgoto Lq\n\t}\n\trt.Emit(40, ci)\n}()"), Y("a + 933")]))
+    I.append(("ctl_labelled_in_closure", [("raw", "func() {\nLz:\n\tfor ci := 0; ci < 3; ci++ {\n\t\tfor cj := 0; cj < 3; cj++ {\n\t\t\tif cj == 1 {\n\t\t\t\tcontinue Lz\n\t\t\t}\n\t\t\tif ci == 2 {\n\t\t\t\tbreak Lz\n\t\t\t}\n\t\t\trt.Emit(40, ci*10+cj)\n\t\t}\n\t}\n}()"), Y("a + 934")]))
+    I.append(("ctl_select_in_closure", [("raw", "cr := func() int {\n\tsc := make(chan int, 1)\n\tsc <- a\n\tselect {\n\tcase sv := <-sc:\n\t\treturn sv\n\tdefault:\n\t\treturn b\n\t}\n}()"), Y("cr + 935")]))
+    I.append(("ctl_fallthrough_in_closure", [("raw", "cr := func() int {\n\tr := 0\n\tswitch a & 1 {\n\tcase 0:\n\t\tr += 1\n\t\tfallthrough\n\tcase 1:\n\t\tr += 2\n\t}\n\treturn r\n}()"), Y("cr + 936")]))
+    I.append(("ctl_range_ptr_array_in_closure", [("raw", "cr := func() int {\n\tpa := [3]int{a, b, 1}\n\tr := 0\n\tfor i, v := range &pa {\n\t\tr += v + i\n\t}\n\treturn r\n}()"), Y("cr + 937")]))
+    return I
+
+
+C12_STANDALONE = [
+    # whole generator functions (not injected): type-parameter range, wrong signatures
+    ("range_type_param", """func GT@[S ~[]int](s S) (_ Iter[int]) {
+	for i, v := range s {
+		Yield(v + i)
+	}
+	return
+}
+
+func G@(a, b, n int, g1, g2, g3 bool) (_ Iter[int]) {
+	YieldFrom(GT@([]int{a, b, a + b}))
+	return
+}
+"""),
+    ("wrong_signature_two_results", """func GW@(a int) (Iter[int], error) {
+	Yield(a)
+	return nil, nil
+}
+
+func G@(a, b, n int, g1, g2, g3 bool) (_ Iter[int]) {
+	it, _ := GW@(a)
+	YieldFrom(it)
+	return
+}
+"""),
+    ("wrong_signature_no_iter", """func GW@(a int) int {
+	Yield(a)
+	return a
+}
+
+func G@(a, b, n int, g1, g2, g3 bool) (_ Iter[int]) {
+	Yield(GW@(a))
+	return
+}
+"""),
+]
+
+
+def inject_at(body, inj, rng):
+    """splice the injected statements at a random top-level or nested list position that is not
+    after a terminating jump"""
+    positions = []
+
+    def collect(lst, depth):
+        for i in range(len(lst) + 1):
+            if i == 0 or lst[i - 1][0] not in ("break", "continue", "return"):
+                positions.append((lst, i, depth))
+        for s in lst:
+            k = s[0]
+            if k == "block":
+                collect(s[1], depth + 1)
+            elif k == "if":
+                collect(s[2], depth + 1)
+                if s[3] is not None:
+                    collect(s[3], depth + 1)
+            elif k == "for":
+                collect(s[4], depth + 1)
+
+    collect(body, 0)
+    lst, i, _ = rng.choice(positions)
+    for j, st in enumerate(inj):
+        lst.insert(i + j, st)
+    return body
